@@ -130,6 +130,20 @@ def validate(module, cfg, events, timeout=600, xmx="4g", extra_files=None):
         consumed = max(0, len(re.findall(r"^State \d+:", r.trace_text, re.M)) - 1)
     return acc, consumed, r
 
+def validate_lin(module, cfg, events, timeout=600, xmx="4g", extra_files=None):
+    """trace specifications with silent steps: accepted <=> the invariant NotAccepted is violated (some placement of the
+    silent steps consumed every event).  Returns (accepted, longest explained prefix, TlcResult)."""
+    d = os.path.join(TMP, "vtrace_%d_%d" % (os.getpid(), random.randrange(1 << 30)))
+    os.makedirs(d, exist_ok=True)
+    p = os.path.join(d, "t.ndjson"); write_trace(p, events)
+    r = tlc.run(module, cfg, workers=1, env={"TRACE": p}, timeout=timeout, xmx=xmx, extra_files=extra_files)
+    shutil.rmtree(d, ignore_errors=True)
+    acc = r.violation == "NotAccepted"
+    m = re.findall(r'"MAXL", (\d+)', r.out)
+    maxl = len(events) if acc else (int(m[-1]) - 1 if m else 0)
+    if acc: r.error = None
+    return acc, maxl, r
+
 def validate_scripts(ctx, module, cfg, items, timeout=600, batch=400, first_event=None, extra_files=None):
     """items: list of (Script, events). Validates in batches (events concatenated; every script starts with a reset event).
     Returns list of (Script, events, consumed_in_script, TlcResult) for rejected scripts."""
